@@ -659,6 +659,7 @@ def gen_fragment(repo, d, body, report):
     edits = Edits()
     stats = {}
     body_rewrites(src, a0, b1 + 1, edits, parse_subst(d.get("subst", "")), stats, {})
+    rewrite_loop_values(src, a0, b1 + 1, edits, stats, {k: v for k, v in d.items() if k.startswith("__brk")})
     loops = src.loops_in(a0, b1 + 1)
     for sub in subs:
         text = "\n".join(sub["text"]).rstrip()
@@ -675,6 +676,18 @@ def gen_fragment(repo, d, body, report):
                 edits.add(toks[a].start, toks[a].start, text + "\n", "GHOST", "")
             else:
                 edits.add(toks[b].end, toks[b].end, "\n" + text + "\n", "GHOST", "")
+        elif sub["kind"] == "closure":
+            k = int(sub["args"][0])
+            hdr = sub["args"][1]
+            cls = find_closures(src, a0, b1 + 1)
+            if k >= len(cls):
+                raise LostAnchor(f"fragment {d['name']}: closure ordinal {k} not found")
+            (p0, p1, c0, c1) = cls[k]
+            o = kv(sub["args"][2:])
+            bind = f"let {o['bind']} = __p; " if o.get("bind") else ""
+            edits.add(toks[p0].start, toks[p1].end, hdr + "\n" + text + "\n{ " + bind, "R7", "closure header")
+            edits.add(toks[c1].end, toks[c1].end, " }", "R7", "")
+            stats["R7"] = stats.get("R7", 0) + 1
         elif sub["kind"] == "rewrite":
             o = kv(sub["args"][2:])
             a, b = src.find_seq(a0, b1 + 1, sub["args"][0], int(o.get("nth", 1)))
